@@ -55,6 +55,7 @@ class Context(ConvContext):
         super().__init__(sess, rng)
         self.results = {}     # (op, x, y) -> result line
         self.nm = 0
+        self.nl = 0
         self.extra["hash_checks"] = 0
         self.extra["sorted_checks"] = 0
 
@@ -82,6 +83,17 @@ def si(ctx, q):
         return a * F(q.magnitude) * pv + b
     s = ctx.sizes.unit_size(q.unit)
     return None if s is None else F(q.magnitude) * s
+
+
+def level_as_quantity(v):
+    if isinstance(v, Quantity):
+        return v
+    if isinstance(v, Level):
+        try:
+            return v.quantify()
+        except Exception:  # noqa: BLE001
+            return None
+    return None
 
 
 MIRROR = {"eq": "eq", "ne": "ne", "lt": "gt", "gt": "lt", "le": "ge", "ge": "le"}
@@ -136,6 +148,13 @@ def oracle(ctx, line, res):
     both_quantities = qa is not None and qb is not None
     if m is not None and not m.startswith("ERR") and m != res and (op in ("eq", "ne") or both_quantities):
         tie = False
+        ta, tb = level_as_quantity(a), level_as_quantity(b)
+        if not both_quantities and ta is not None and tb is not None and (isinstance(a, Level) or isinstance(b, Level)):
+            # a level stands for the quantity it denotes (Level.__eq__ compares quantify()): the same rounding
+            # ties as between two quantities (the level of q, taken back, is q up to an ulp of pow/log)
+            sa, sb = si(ctx, ta), si(ctx, tb)
+            tol = max(F(1, 10**9), F(1, 10**5) * (degree(ta.unit) + degree(tb.unit)))
+            tie = sa is not None and sb is not None and abs(sa - sb) <= tol * max(abs(sa), abs(sb))
         if both_quantities:
             sa, sb = si(ctx, qa), si(ctx, qb)
             # a tie: equal up to float rounding, or up to the 1e-5-per-degree tolerance within which the
@@ -190,6 +209,8 @@ def skip_compare(ctx, line, res):
             qs.append(v)
         elif isinstance(v, Measurement):
             qs.append(v.measurand)
+        elif isinstance(v, Level) and level_as_quantity(v) is not None:
+            qs.append(level_as_quantity(v))
         else:
             return False
     # A quantity compared with ITS OWN conversion (the generator does that on purpose) is a rounding tie
@@ -369,6 +390,38 @@ def generate(ctx, n_ops):
                 yield from both_orders("M%d" % ma, "M%d" % mb, ["eq", "lt", "ge"])
                 yield from both_orders("M%d" % ma, y, ["eq", "le"])
                 yield from both_orders(x, "M%d" % mb, ["eq", "gt"])
+        elif k < 0.80 and k >= 0.65:
+            # levels: a logarithmic unit referenced to the second quantity's unit, the level of the first
+            # quantity, compared (== symmetric) with quantities, measurements and another level
+            rq = yield from qnew(rng.choice(["i:1", ftok(0.5), "i:20"]), b)
+            if rq is None:
+                continue
+            fam = rng.choice([("i:10", 10, -1), ("i:10", 0, 0), ("i:2", 12, -1)])
+            res = yield "X\tlunit\t%s\tp%d:%d\tq%d" % (fam[0], fam[1], fam[2], rq)
+            emitted += 1
+            if not res.startswith("ok\tlu"):
+                continue
+            li = int(res.split("\t")[2])
+            res = yield "X\tlevel\tn:%d\tq%d" % (li, qa)
+            emitted += 1
+            if not res.startswith("ok\tL"):
+                continue
+            la = ctx.nl
+            ctx.nl += 1
+            yield from both_orders("L%d" % la, x, ["eq", "ne"])
+            yield from both_orders("L%d" % la, y, ["eq"])
+            res = yield "X\tlnew\t%s\tn:%d" % (rng.choice(["i:0", "i:3", ftok(-2.5)]), li)
+            emitted += 1
+            if res.startswith("ok\tL"):
+                lb = ctx.nl
+                ctx.nl += 1
+                yield from both_orders("L%d" % la, "L%d" % lb, ["eq", "ne"])
+            ra = yield "X\tmnew\tq%d\t%s" % (qb, rng.choice(["i:0", ftok(0.5), "i:2"]))
+            emitted += 1
+            if ra.startswith("ok\tM"):
+                ma = ctx.nm
+                ctx.nm += 1
+                yield from both_orders("M%d" % ma, "L%d" % la, ["eq", "lt", "ge"])
         elif k < 0.65:
             ra = yield "X\tapprox\tq%d\t%s" % (qa, rng.choice([ftok(1e-7), ftok(0.1), ftok(0.5)]))
             emitted += 1
